@@ -188,7 +188,8 @@ class Heap:
         self.tag = tag
         # shared by the lineage: ids of terms known to denote entry-state references (< alloc on
         # entry) and ids of allocation-counter constants (everything built from them is fresh)
-        self.meta = meta if meta is not None else {"$old": set(), "$allocs": {self.alloc.get_id()}}
+        self.meta = meta if meta is not None else {"$old": {}, "$allocs": {self.alloc.get_id(): 0},
+                                                   "$alloc0": self.alloc}
 
     # core-region arrays under their historical names (contracts use them)
     @property
@@ -238,31 +239,65 @@ class Heap:
         h.mem[region] = (Len, El, ElX)
         return h
 
-    # -- reading an entry-state list through stores at fresh references -------------------
+    # -- reading a list through stores at references allocated later ----------------------
+    # Allocation discipline: every reference that exists when the allocation counter is A is
+    # < A; references allocated afterwards are A, A+1, ... or come from later counters.  The
+    # counters of a path are ordered by creation (`epoch`).  For a reference term we record
+    # the counter value (epoch, offset) it is known to be below; a Store at an index that is
+    # >= that bound cannot alias it and is peeled off syntactically, so that terms -- and the
+    # quantifier patterns built from them -- do not carry irrelevant Store layers.
+    def _alloc_pos(self, a):
+        """(epoch, offset) of an allocation-counter term `base` / `base + c`, or None"""
+        ep = self.meta["$allocs"]
+        if a.get_id() in ep:
+            return (ep[a.get_id()], 0)
+        if z3.is_add(a):
+            base, off = None, 0
+            for c in a.children():
+                if z3.is_int_value(c):
+                    off += c.as_long()
+                else:
+                    p = self._alloc_pos(c)
+                    if p is None or base is not None:
+                        return None
+                    base, off = p[0], off + p[1]
+            return (base, off) if base is not None else None
+        return None
+
+    def mark_below(self, t, alloc_term):
+        """t denotes a reference that existed when the counter was `alloc_term`"""
+        if not isinstance(t, z3.ExprRef):
+            return
+        pos = self._alloc_pos(alloc_term)
+        if pos is None:
+            return
+        old = self.meta["$old"].get(t.get_id())
+        if old is None or pos < old:
+            self.meta["$old"][t.get_id()] = pos
+
     def mark_old(self, t):
-        if isinstance(t, z3.ExprRef):
-            self.meta["$old"].add(t.get_id())
+        self.mark_below(t, self.meta["$alloc0"])
 
     def mark_alloc(self, a):
-        self.meta["$allocs"].add(a.get_id())
-
-    def _is_fresh_ref(self, idx):
-        """idx is `alloc` or `alloc + k` for an allocation-counter constant: a reference that did
-        not exist on entry"""
-        allocs = self.meta["$allocs"]
-        if idx.get_id() in allocs:
-            return True
-        if z3.is_add(idx):
-            return any(c.get_id() in allocs or self._is_fresh_ref(c) for c in idx.children()) and \
-                all(c.get_id() in allocs or z3.is_int_value(c) or self._is_fresh_ref(c) for c in idx.children())
-        return False
+        if a.get_id() not in self.meta["$allocs"]:
+            self.meta["$allocs"][a.get_id()] = len(self.meta["$allocs"])
 
     def _peel(self, arr, t):
-        """Select(Store(a, fresh, v), old) = Select(a, old): done syntactically so that terms (and
-        quantifier patterns built from them) do not carry irrelevant Store layers"""
-        if t.get_id() not in self.meta["$old"]:
+        bound = self.meta["$old"].get(t.get_id())
+        if bound is None:
+            tp = self._alloc_pos(t)      # t itself is `base + k`: distinct from `base + k'`, k' != k, and
+            if tp is None:               # from every later counter
+                return arr
+            while z3.is_store(arr):
+                ip = self._alloc_pos(arr.arg(1))
+                if ip is None or ip == tp or ip[0] < tp[0]:
+                    break
+                arr = arr.arg(0)
             return arr
-        while z3.is_store(arr) and self._is_fresh_ref(arr.arg(1)):
+        while z3.is_store(arr):
+            ip = self._alloc_pos(arr.arg(1))
+            if ip is None or ip < bound:
+                break
             arr = arr.arg(0)
         return arr
 
